@@ -16,6 +16,7 @@ import (
 	"path/filepath"
 	"strings"
 	"sync"
+	"sync/atomic"
 	"testing"
 	"testing/synctest"
 	"time"
@@ -211,10 +212,11 @@ type c14E2E struct {
 	RespLen    int           `json:"response_len"`
 	RespCh     int           `json:"response_chunks"`
 	Gap        time.Duration `json:"gap"`
-	ReqChunked bool          `json:"request_chunked"` // the client sends no Content-Length (Transfer-Encoding: chunked)
-	Status     int           `json:"status"`          // the target's final status (ok, head and target-truncates endings)
-	Hints      int           `json:"hints"`           // 103 responses the target sends before it
-	Ending     string        `json:"ending"`          // ok | head | target-close-before | target-truncates | client-abort-upload | client-abort-download | sse | upgrade
+	Prelude    bool          `json:"oversized_response_first"` // an earlier request of the same service got a response over the limit (500)
+	ReqChunked bool          `json:"request_chunked"`          // the client sends no Content-Length (Transfer-Encoding: chunked)
+	Status     int           `json:"status"`                   // the target's final status (ok, head and target-truncates endings)
+	Hints      int           `json:"hints"`                    // 103 responses the target sends before it
+	Ending     string        `json:"ending"`                   // ok | head | target-close-before | target-truncates | client-abort-upload | client-abort-download | sse | upgrade
 }
 
 func c14GenE2E(rng *rand.Rand, idx int) c14E2E {
@@ -247,6 +249,7 @@ func c14GenE2E(rng *rand.Rand, idx int) c14E2E {
 	if sc.Ending == "head" {
 		sc.ReqLen, sc.ReqCh = 0, 1
 	}
+	sc.Prelude = sc.BufResp && sc.MaxResp > 0 && rng.IntN(2) == 0
 	sc.ReqChunked = sc.ReqLen > 0 && sc.Ending != "upgrade" && rng.IntN(3) == 0
 	sc.Status = pick(rng, []int{200, 200, 200, 201, 404, 500})
 	if rng.IntN(4) == 0 {
@@ -351,9 +354,19 @@ func c14RunE2E(t *testing.T, run *Run, sc c14E2E) {
 	var gotReq *RawMsg
 	contacted := false
 	ft := w.AddTarget("buf:80", nil)
+	var inPrelude atomic.Bool
 	ft.RawServe = func(ft *FakeTarget, c net.Conn) {
 		br := bufio.NewReader(c)
 		if _, err := br.Peek(1); err != nil {
+			return
+		}
+		if inPrelude.Load() {
+			// the earlier exchange: a response larger than max-response-body
+			if _, err := readRawRequest(br); err != nil || !w.sleep(OffTarget) {
+				return
+			}
+			fmt.Fprintf(c, "HTTP/1.1 200 OK\r\nContent-Length: %d\r\nConnection: close\r\n\r\n", sc.MaxResp+100)
+			c.Write(bytes.Repeat([]byte("p"), int(sc.MaxResp)+100))
 			return
 		}
 		mu.Lock()
@@ -439,6 +452,16 @@ func c14RunE2E(t *testing.T, run *Run, sc c14E2E) {
 	if c := w.Deploy("svc", []string{"buf:80"}, DefSO, to, 5*time.Second, time.Second); c.Err != "" {
 		run.Inconclusive("setup: %s", c.Err)
 		return
+	}
+	if sc.Prelude {
+		inPrelude.Store(true)
+		r := w.Do(Req{ID: "prelude", Host: "c14.example", Path: "/pre"})
+		inPrelude.Store(false)
+		if r.Status != 500 {
+			fail("no-500:prelude", "response of %d bytes > max-response-body %d: status %d", sc.MaxResp+100, sc.MaxResp, r.Status)
+			return
+		}
+		time.Sleep(time.Second)
 	}
 	// ---- client ----
 	conn, err := w.connect(false, "")
@@ -563,7 +586,7 @@ func c14RunE2E(t *testing.T, run *Run, sc c14E2E) {
 	}
 	reqTooBig := sc.BufReq && sc.MaxReq > 0 && int64(sc.ReqLen) > sc.MaxReq
 	respTooBig := sc.BufResp && sc.MaxResp > 0 && int64(sc.RespLen) > sc.MaxResp
-	class := fmt.Sprintf("e2e|req=%v|chunked=%v|resp=%v|%s|reqBig=%v|respBig=%v|reqSpill=%v|respSpill=%v", sc.BufReq, sc.ReqChunked, sc.BufResp, sc.Ending, reqTooBig, respTooBig, int64(sc.ReqLen) > sc.MaxMem, int64(sc.RespLen) > sc.MaxMem)
+	class := fmt.Sprintf("e2e|req=%v|chunked=%v|resp=%v|pre=%v|%s|reqBig=%v|respBig=%v|reqSpill=%v|respSpill=%v", sc.BufReq, sc.ReqChunked, sc.BufResp, sc.Prelude, sc.Ending, reqTooBig, respTooBig, int64(sc.ReqLen) > sc.MaxMem, int64(sc.RespLen) > sc.MaxMem)
 	switch sc.Ending {
 	case "upgrade":
 		if resp == nil || resp.Status() != 101 || !upgradeEcho {
